@@ -258,11 +258,16 @@ func replayID() string {
 func TestReplay(t *testing.T) {
 	raw := hx.ReplayCase(t)
 	var c Case
+	id := replayID()
+	modes[id].rec.SetReplaying()
+	if sc, ok := subFromRaw(raw); ok {
+		f, _ := runSub(sc)
+		modes[id].rec.Check(t, sc, f)
+		return
+	}
 	if err := json.Unmarshal(raw, &c); err != nil {
 		t.Fatal(err)
 	}
-	id := replayID()
-	modes[id].rec.SetReplaying()
 	if c.Repeat < 8 {
 		c.Repeat = 8
 	}
